@@ -7,7 +7,12 @@ verified C10 checker accepts.
 Tie: for generated programs every name in problog.get_evaluatables() (+ the default choice) x
 {Probability, LogProbability (default), user-defined copy of Probability, the same with is_nsp, Symbolic}
 is run; all numbers must agree (1e-9) with a Python brute-force evaluation of the distribution semantics on the
-ground program (judge) and with the Coq model's exact WMC of the ground formula (tie)."""
+ground program (judge) and with the Coq model's exact WMC of the ground formula (tie).
+Symbolic semiring (ModelSym.v / ProofsSymbolic.v): the C12 translation of class SemiringSymbolic is regenerated
+(C05_symbolic_is_source is proved against it); per compiled d-DNNF the string SimpleDDNNFEvaluator + SemiringSymbolic
+computes for the root must equal, character for character, Coq's `print (c_eval_l SymOps w C)`; every symbolic result
+string is cut into tokens by `lex_symbolic` and Coq checks that the tokens spell the string and that its reader
+`readQ` returns exactly the rational Python's own parser (ast) assigns to the string."""
 import os
 import re
 import sys
@@ -25,8 +30,9 @@ from props import C10  # noqa: E402
 META = {
     "id": "C05",
     "level": "proof",
-    "technique": "Coq theorems on semiring-generic circuit evaluation (homomorphisms, custom semirings, NSP on smooth circuits, "
-                 "WMC of checked circuits) + differential run of every available backend x semiring against a brute-force "
+    "technique": "Coq theorems on semiring-generic circuit evaluation (homomorphisms, custom semirings, NSP on smooth and on "
+                 "non-smooth decomposable+deterministic circuits, WMC of checked circuits, symbolic expressions read back by a "
+                 "verified token reader; SemiringSymbolic tied to the C12 translation of the source) + differential run of every available backend x semiring against a brute-force "
                  "possible-world judge and the Coq model's exact WMC",
     "design_ref": "DESIGN.md §5 C05",
     "text": "The theorems are unbounded and semiring-generic; the tie is sampled. SDD/SDDX/FSDD/BDD/FBDD need PySDD/dd, "
